@@ -717,7 +717,7 @@ func (w *Worker) unrecoveredPanic(g *G, tp targetPanic) {
 	// a nil dereference inside the os / poll / syscall / regexp packages comes from a
 	// stand-in object of a harness (new(os.File), new(regexp.Regexp)) reaching a method
 	// the harness does not model: the model is incomplete, the code is not at fault
-	if contains(tp.msg, "nil pointer dereference") {
+	if contains(tp.msg, "nil pointer dereference") && !contains(tp.msg, "called on a nil receiver") {
 		for _, pkg := range []string{"(*os.File).", "os.", "internal/poll.", "syscall.", "(*regexp.Regexp).", "(*regexp.machine).", "regexp."} {
 			if len(site) >= len(pkg) && site[:len(pkg)] == pkg {
 				p.Outcome = OutInconclusive
